@@ -95,10 +95,96 @@ def statement(mod, name):
     return body[1:].strip()
 
 
+PREFIX = {}
+_LOCALH = {}
+_SEC = {}
+
+
+def local_h(mod):
+    """section-local definitions of a Proofs module that are generalised over the section variable H"""
+    if mod in _LOCALH:
+        return _LOCALH[mod]
+    import subprocess
+    names, depth, sec = [], 0, 0
+    secof, thsec = {}, {}
+    for l in open(os.path.join(TH, "Proofs", mod + ".v")):
+        if re.match(r"\s*Section\s+\w+", l):
+            depth += 1; sec += 1
+        elif re.match(r"\s*End\s+\w+", l) and depth:
+            depth -= 1
+        elif depth:
+            m = re.match(r"\s*(?:Definition|Fixpoint)\s+(\w+)", l)
+            if m:
+                names.append(m.group(1)); secof[m.group(1)] = sec
+            m = re.match(r"\s*(?:Theorem|Lemma|Corollary)\s+(\w+)", l)
+            if m:
+                thsec[m.group(1)] = sec
+    _SEC[mod] = (secof, thsec)
+    res = set()
+    if names:
+        tmp = "/tmp/mkprops_chk.v"
+        with open(tmp, "w") as fh:
+            fh.write("From Verif Require Import Proofs.%s.\n" % mod)
+            for n in names:
+                fh.write("Check %s.%s.\n" % (mod, n))
+        out = subprocess.run("coqc -noglob -Q %s Verif %s" % (TH, tmp), shell=True, stdout=subprocess.PIPE,
+                             stderr=subprocess.STDOUT).stdout.decode()
+        out = " ".join(out.split())
+        for n in names:
+            m = re.search(r"%s\.%s : (\S+ \S+ \S+)" % (mod, n), out) or re.search(r"\b%s : (\S+ \S+ \S+)" % n, out)
+            if m and m.group(1).replace("Bytes.", "").startswith("(bytes -> bytes)"):
+                res.add(n)
+    _LOCALH[mod] = res
+    return res
+
+
+def trial(pid):
+    """compile Props/<pid>.v; on a failing theorem whose prefix is undetermined, switch it to the H prefix and retry"""
+    import subprocess
+    names = [(m, n) for m, n, pre in TABLE[pid] if pre is None]
+    for _ in range(len(names) + 2):
+        write(pid)
+        r = subprocess.run("coqc -noglob -Q %s Verif %s" % (TH, os.path.join(TH, "Props", pid + ".v")), shell=True,
+                           stdout=subprocess.PIPE, stderr=subprocess.STDOUT)
+        out = r.stdout.decode()
+        if r.returncode == 0:
+            return True
+        m = re.search(r'line (\d+), characters', out)
+        if not m:
+            print(out[-2000:]); return False
+        ln = int(m.group(1))
+        src = open(os.path.join(TH, "Props", pid + ".v")).read().split("\n")
+        # find the theorem enclosing that line
+        th = None
+        for i in range(ln - 1, -1, -1):
+            mm = re.match(r"Theorem (\w+) :", src[i])
+            if mm:
+                th = mm.group(1); break
+        cand = [(m_, n) for m_, n in names if (n if re.match(r"C\d\d", n) else "%s_%s" % (pid, n)) == th]
+        if not cand or PREFIX.get(cand[0]) == HP:
+            print("cannot fix %s in %s:\n%s" % (th, pid, out[-1500:])); return False
+        PREFIX[cand[0]] = HP
+    return False
+
+
 def main():
     ids = sys.argv[1:] or sorted(TABLE)
-    os.makedirs(os.path.join(TH, "Props"), exist_ok=True)
     for pid in ids:
+        if any(pre is None for _, _, pre in TABLE[pid]):
+            print(pid, "trial:", trial(pid))
+        else:
+            write(pid)
+
+
+def write_all():
+    ids = sys.argv[1:] or sorted(TABLE)
+    for pid in ids:
+        write(pid)
+
+
+def write(pid):
+    os.makedirs(os.path.join(TH, "Props"), exist_ok=True)
+    if True:
         mods = []
         for mod, _, _ in TABLE[pid]:
             if mod not in mods:
@@ -121,7 +207,16 @@ def main():
             lines.append(o if o.startswith("Local") else "Local " + o)
         lines.append("")
         for mod, name, pre in TABLE[pid]:
+            if pre is None:
+                pre = PREFIX.get((mod, name), "")
             st = statement(mod, name)
+            lhs = local_h(mod)
+            secof, thsec = _SEC[mod]
+            lh = [n for n in lhs if re.search(r"\b%s\b" % n, st) and secof.get(n) == thsec.get(name)]
+            if lh:
+                pre = HP
+                for n in lh:
+                    st = re.sub(r"\b%s\b" % n, "(%s H)" % n, st)
             pname = name if re.match(r"C\d\d", name) else "%s_%s" % (pid, name)
             lines.append("Theorem %s :\n  %s%s." % (pname, pre, st))
             lines.append("Proof. exact %s.%s. Qed." % (mod, name))
